@@ -144,7 +144,8 @@ def run_shard(spec, acc):
                        w={'status': 10, 'stale_status': 3, 'push_commit': 5,
                           'commit_event': 8, 'admin': 0.3})
     openers = [None, gen.OPENERS['two_prs_same_base'],
-               gen.OPENERS['dest_moves_while_open'], None]
+               gen.OPENERS['dest_moves_while_open'], None,
+               gen.OPENERS['manual_on_middle_w']]
     if spec['tier'] == 'quick':
         n_hist, jobs, cap = 8, 12, 600
     else:
